@@ -1057,17 +1057,35 @@ func runSignal(c *Ctx, r *Reporter) {
 			}
 		}
 		okz := false
-		if zeroIf != nil && alloc != nil {
+		_ = alloc
+		if zeroIf != nil {
 			tb := zeroIf.Block().Succs[0]
 			if len(tb.Instrs) > 0 {
 				if ret, ok := tb.Instrs[len(tb.Instrs)-1].(*ssa.Return); ok && len(ret.Results) == 2 && !mayBeNilError(ret.Results[1], tb, 0) {
-					okz = zeroIf.Block().Succs[1].Dominates(alloc.Block()) || zeroIf.Block().Succs[1] == alloc.Block()
+					okz = true
 				}
 			}
-			// the tested value is the step stored into the range
+			// every return that hands out a range lies behind the non-zero edge
+			fb := zeroIf.Block().Succs[1]
+			for _, ret := range returnsOf(sf) {
+				if len(ret.Results) != 2 {
+					continue
+				}
+				if k, ok := ret.Results[1].(*ssa.Const); ok && k.IsNil() {
+					if !(fb == ret.Block() || fb.Dominates(ret.Block())) {
+						okz = false
+					}
+				}
+			}
+			// the tested value is the step operand of the range: the number evaluated from GetStep()
 			if okz {
-				if stepVal := storedFieldValue(alloc, "step"); stepVal != nil {
-					okz = zeroIf.Cond.(*ssa.BinOp).X == stepVal
+				okz = false
+				if ex, ok := zeroIf.Cond.(*ssa.BinOp).X.(*ssa.Extract); ok && ex.Index == 0 {
+					if call, ok := ex.Tuple.(*ssa.Call); ok && len(call.Call.Args) >= 2 {
+						if inv, ok := call.Call.Args[len(call.Call.Args)-1].(*ssa.Call); ok && (inv.Call.IsInvoke() && inv.Call.Method.Name() == "GetStep" || inv.Call.StaticCallee() != nil && inv.Call.StaticCallee().Name() == "GetStep") {
+							okz = true
+						}
+					}
 				}
 			}
 		}
